@@ -19,6 +19,9 @@ CHECKS["C10"] = ("verdict monitor (math/big range oracle) over the real type che
 CHECKS["C11"] = ("verdict monitor over the real compiler (in-process worker pool + CLI confirmation): exhaustive 17x17 type pairs x 10 assignment-like positions against an arithmetic oracle; native run-time spot check of accepted pairs",
  "Exhaustive over the finite space the property names: every ordered pair of the 17 numeric types in 10 assignment-like positions was compiled by the real type checker; accepted-without-cast implied lossless by an oracle computed from ranges and significand widths (not from the compiler's table); every lossy pair was rejected implicitly and accepted with `as`; accepted pairs up to 64 bits were executed natively on the boundary values of S.",
  "trusts the oracle's float parameters (24/53/113/237-bit significands); positions outside the ten listed are not covered", "DESIGN.md §3 C11")
+CHECKS["C12"] = ("verdict monitor by construction over generated multi-module projects compiled by the real compiler (in-process pool + CLI confirmation): lowercase/uppercase twins of every symbol kind in identical access sites, contexts and import shapes, enumerated completely",
+ "Exhaustive over the enumerated catalogue (about 3000 projects): in every access site x context x import shape the lowercase twin (const, variable, function, struct type, enum type, struct field; other module and same module outside the receiver) was rejected and the uppercase twin in the identical position accepted; struct literals initialising private fields and receiver access were accepted.",
+ "catalogue = the rig's reading of the property's dimensions; private methods / enum variants not asserted", "DESIGN.md §3 C12")
 CHECKS["C16"] = ("reference-model monitor: math/big oracle over the exported C API of bigint.c (value and _ptr forms) behind a clang ASan+UBSan driver, limb-boundary-weighted operand workload",
  "Held on N calls: every exported ferret_{i,u}{128,256}_* operation (add, sub, mul, div, mod, comparisons, and/or/xor/not, shl/shr, pow, 64-bit conversions, decimal/hex/octal/binary text conversion) returned the math/big result reduced mod 2^N on every generated operand pair, in both calling forms, without a sanitizer report. Exploration over a 2^256 space: strength comes from boundary weighting (limb edges, sign boundaries, borrow/carry chains), not enumeration.",
  "trusts math/big and the hex transport of the driver; division by zero, negative shifts/exponents are out of the property's domain", "DESIGN.md §3 C16")
